@@ -25,4 +25,4 @@ def main(argv):
                             extra_assumptions=["the float64 clause of the statement (result within a small multiple of rounding error) is not decided: rounding analysis is outside the family"],
                             functions_note="Each all-Cartesian variant is proved equal to its spec function (vv/specs.py, written from the documentation); every other variant is "
                                            "proved equal to the all-Cartesian one on the Cartesian view of its operands (obligations `C02/transport:...`, the C01 contracts).",
-                            extra_results=tres, t_start=t0)
+                            extra_results=tres, t_start=t0, post=__import__("vv.props.glue_part", fromlist=["post"]).post("C02"))
